@@ -2,6 +2,7 @@ package props
 
 import (
 	"fmt"
+	"os"
 	"reflect"
 
 	"github.com/kstenerud/go-concise-encoding/ce/events"
@@ -115,7 +116,23 @@ func init() {
 			c.Events = gen.Document(t, c06Opts(ctx, c.Format))
 			return c
 		},
-		Check: func(ci interface{}, ctx *Ctx) error {
+		Fixed: func(ctx *Ctx, report func(c interface{}, err error)) {
+			// the boundary sweep shared with C01-C03, through the untyped unmarshal and back (bit arrays: S26;
+			// UTC-offset zones: S28; second 60 does not exist in a time.Time; CBE has no custom text)
+			for _, format := range []string{"cbe", "cte"} {
+				format := format
+				sweepEventCases(ctx, report, func(ci interface{}, ctx *Ctx) error {
+					return c06Check(&C06Case{Format: format, Events: ci.(*EvCase).Events}, ctx)
+				}, "bit-array", "time/utc-offset", "time/nanoseconds", "custom-text-type-code")
+			}
+		},
+		Check: c06Check,
+	})
+}
+
+func c06Check(ci interface{}, ctx *Ctx) error {
+	{
+		{
 			c := ci.(*C06Case)
 			cfg := c06Config()
 			if idx, err := rulesAccept(c.Events, cfg); idx >= 0 {
@@ -182,6 +199,6 @@ func init() {
 				return fmt.Errorf("untyped round trip changed the data: %s\ndoc=%s\ndoc2=%s", d, docdump(c.Format, doc), docdump(c.Format, doc2))
 			}
 			return nil
-		},
-	})
+		}
+	}
 }
